@@ -19,9 +19,6 @@ func (e *DOHEndpoint) VerifUseTransport(dialAddr string, roots *x509.CertPool) {
 	e.transport = transport{RoundTripper: rt, hostname: e.Hostname, path: e.Path, addr: dialAddr}
 }
 
-// VerifSetRoundTripper installs an arbitrary RoundTripper on e.
-func (e *DOHEndpoint) VerifSetRoundTripper(rt http.RoundTripper) { e.transport = rt }
-
 // VerifWrapRoundTripper installs inner BEHIND the package's own `transport` wrapper (the code that rewrites the
 // request's URL host and path for this endpoint), as newTransport does with the real HTTP/2 transport.
 func (e *DOHEndpoint) VerifWrapRoundTripper(inner http.RoundTripper) {
